@@ -148,10 +148,113 @@ def atoms_of(f, cond, truth, src=None, lab=None):
     d = _flag_definition(f, j, src)
     if d is not None:
         return atoms_of(f, d, truth, src, lab)
+    if truth:
+        ld = _flag_last_def(f, j, src)
+        if ld is not None:
+            return atoms_of(f, ld[0], True, src, lab) + [Atom("!=", Operand(f, j), ZERO, src, lab, j)]
     return [Atom("!=" if truth else "==", Operand(f, j), ZERO, src, lab, j)]
 
 
 _BOOLISH = ("<", ">", "<=", ">=", "==", "!=", "&&", "||")
+
+
+def _flag_test(f, cond, name):
+    """Does `cond` test local `name` as a truth value?  Returns True (cond is true iff name != 0), False (iff name == 0)
+    or None."""
+    j = ex.skip(f, cond)
+    e = f.exprs[j]
+    pol = True
+    for _ in range(6):
+        if e["k"] == "cast":
+            j = ex.skip(f, e["c"][0])
+            e = f.exprs[j]
+        elif e["k"] == "un" and e["op"] == "!":
+            pol = not pol
+            j = ex.skip(f, e["c"][0])
+            e = f.exprs[j]
+        elif e["k"] == "bin" and e["op"] in ("==", "!=") and (ex.const(f, e["c"][1]) == 0 or ex.const(f, e["c"][0]) == 0):
+            if e["op"] == "==":
+                pol = not pol
+            j = ex.skip(f, e["c"][0] if ex.const(f, e["c"][1]) == 0 else e["c"][1])
+            e = f.exprs[j]
+        else:
+            break
+    if e["k"] == "ref" and e.get("dk") == "local" and e.get("name") == name:
+        return pol
+    return None
+
+
+def _flag_last_def(f, node, src):
+    """A local flag with several definitions is found set at the branch block `src`.  The definitions that can be the
+    last one executed on a path to `src` on which no test of the flag itself said "unset" are collected; when exactly one
+    remains and it assigns the outcome of a condition, that condition held: (condition node, block of the definition)."""
+    j = ex.skip(f, node)
+    e = f.exprs[j]
+    while e["k"] == "cast":
+        j = ex.skip(f, e["c"][0])
+        e = f.exprs[j]
+    if e["k"] != "ref" or e.get("dk") != "local" or src is None:
+        return None
+    name = e["name"]
+    defs = []
+    for bid, i in flow.all_events(f):
+        for lhs, var, op, rhs in flow.stores(f, i):
+            nm = var["name"] if var is not None else None
+            if nm is None and lhs is not None:
+                le = f.exprs[ex.skip(f, lhs)]
+                if le["k"] == "ref" and le.get("dk") == "local":
+                    nm = le["name"]
+            if nm == name:
+                if op != "=" or rhs is None:
+                    return None
+                defs.append((bid, i, rhs))
+    if len(defs) < 2 or len(defs) > 6:
+        return None
+    if any(x["k"] == "un" and x["op"] == "&" and f.exprs[ex.skip(f, x["c"][0])]["k"] == "ref"
+           and f.exprs[ex.skip(f, x["c"][0])].get("name") == name for x in f.exprs):
+        return None
+    def_blocks = {}
+    for bid, i, rhs in defs:
+        def_blocks.setdefault(bid, []).append((flow.elem_pos(f)[i][1], i, rhs))
+    cands = []
+    for bid, i, rhs in defs:
+        # the last definition inside its own block?
+        if max(def_blocks[bid])[1] != i:
+            continue
+        # reach `src` from the end of bid without another definition and without an edge that says the flag is unset
+        seen, st, hit = set(), [bid], False
+        first = True
+        while st:
+            b = st.pop()
+            if b in seen:
+                continue
+            seen.add(b)
+            if not first and b in def_blocks:
+                continue
+            if b == src and (not first or bid == src):
+                hit = True
+                break
+            first = False
+            t = f.blocks[b].term
+            for s2, lab in f.edges(b):
+                if t and "cond" in t and lab in ("T", "F"):
+                    ft = _flag_test(f, t["cond"], name)
+                    if ft is not None and (ft != (lab == "T")):
+                        continue            # this edge is taken with the flag unset
+                st.append(s2)
+        if hit or bid == src:
+            cands.append((bid, i, rhs))
+    if len(cands) != 1:
+        return None
+    bid, i, rhs = cands[0]
+    r = ex.skip(f, rhs)
+    re_ = f.exprs[r]
+    while re_["k"] == "cast":
+        r = ex.skip(f, re_["c"][0])
+        re_ = f.exprs[r]
+    if not ((re_["k"] == "bin" and re_["op"] in _BOOLISH) or (re_["k"] == "un" and re_["op"] == "!")):
+        return None
+    return r, bid
 
 
 def _flag_definition(f, node, src, depth=0):
@@ -246,6 +349,29 @@ def dominating_atoms(f, bid):
             out.extend(atoms_of(f, cond, lab == "T", src, lab))
             # a flag that is only ever assigned constants, with a single non-zero one: finding it set means that
             # store was executed, so whatever dominates that store held on the way here
+            if lab in ("T", "F"):
+                ft_name = None
+                jc = ex.skip(f, cond)
+                ec = f.exprs[jc]
+                for _ in range(6):
+                    if ec["k"] in ("cast",) or (ec["k"] == "un" and ec["op"] == "!"):
+                        jc = ex.skip(f, ec["c"][0])
+                        ec = f.exprs[jc]
+                    elif ec["k"] == "bin" and ec["op"] in ("==", "!=") and (ex.const(f, ec["c"][1]) == 0 or ex.const(f, ec["c"][0]) == 0):
+                        jc = ex.skip(f, ec["c"][0] if ex.const(f, ec["c"][1]) == 0 else ec["c"][1])
+                        ec = f.exprs[jc]
+                    else:
+                        break
+                if ec["k"] == "ref" and ec.get("dk") == "local":
+                    pol = _flag_test(f, cond, ec["name"])
+                    if pol is not None and pol == (lab == "T"):
+                        ld = _flag_last_def(f, jc, src)
+                        if ld is not None and ld[1] != bid and ld[1] not in c.get("_busy", ()):
+                            c.setdefault("_busy", set()).add(ld[1])
+                            try:
+                                out.extend(dominating_atoms(f, ld[1]))
+                            finally:
+                                c["_busy"].discard(ld[1])
             tb = _const_flag_set_block(f, cond, lab == "T", src)
             if tb is not None and tb != bid and tb not in c.get("_busy", ()):
                 c.setdefault("_busy", set()).add(tb)
